@@ -249,8 +249,10 @@ package participle
 //@   loop 4 invariant -1 <= rangeindex && rangeindex < len(fieldValue)
 //@   loop 4 decreases len(fieldValue) - rangeindex
 //@   loop 5 invariant -1 <= rangeindex && rangeindex < len(fieldValue)
-//@   loop 5 invariant len(out) == rangeindex + 1 && forall(k, 0, rangeindex + 1, out[k] == uf("fn__reflect.Value_.String_r0", "Str", fieldValue[k]))
 //@   loop 5 decreases len(fieldValue) - rangeindex
+//@   loop 6 invariant -1 <= rangeindex && rangeindex < len(fieldValue)
+//@   loop 6 invariant len(out) == rangeindex + 1 && forall(k, 0, rangeindex + 1, out[k] == uf("fn__reflect.Value_.String_r0", "Str", fieldValue[k]))
+//@   loop 6 decreases len(fieldValue) - rangeindex
 // a conversion error is never swallowed
 //@   let ce error = result1 after call participle.conform#1 default nil
 //@   ensures @convKept ce != nil ==> result != nil [C17]
